@@ -184,10 +184,61 @@ inline bool survives(const std::function<void()>& f, void (*child_setup)()) {
 
 template <int D> BasicCoordinate<D, int> coord(const std::vector<int>& c) { BasicCoordinate<D, int> b; for (int i = 1; i <= D; ++i) b[i] = c[i - 1]; return b; }
 
-struct NOp { std::string k; int t = 1, a = 0, b = 0; std::vector<int> c; RT R; bool forked = false; bool want_contig = false; };
+struct NOp { std::string k; int t = 1, a = 0, b = 0; std::vector<int> c; RT R; std::vector<RT> S; bool forked = false; bool want_contig = false; };
 inline std::string nop_json(const NOp& o) {
-  vh::Json j; j.str("k", o.k).num("t", o.t).num("a", o.a).num("b", o.b).arr("c", o.c).raw("R", rt_json(o.R));
+  std::string ss = "[";
+  for (size_t i = 0; i < o.S.size(); ++i) { if (i) ss += ","; ss += rt_json(o.S[i]); }
+  ss += "]";
+  vh::Json j; j.str("k", o.k).num("t", o.t).num("a", o.a).num("b", o.b).arr("c", o.c).raw("R", rt_json(o.R)).raw("S", ss);
   return j.done();
+}
+// an index range that is incompatible with t (inputs for the operand positions of multi-operand arithmetic):
+// 1 outer range one shorter, 2 one longer, 3 shifted by one, 4 / 5 differing only in the innermost dimension
+inline RT rt_variant(const RT& t, int code) {
+  RT n = t;
+  const bool has = t.hi >= t.lo;
+  if (code == 1) { if (has) { n.hi -= 1; if (!n.leaf) n.r.pop_back(); if (n.hi < n.lo) { n.lo = 0; n.hi = -1; } } }
+  else if (code == 2) { if (has) { n.hi += 1; if (!n.leaf) n.r.push_back(t.r.back()); } else if (n.leaf) { n.lo = 0; n.hi = 0; } }
+  else if (code == 3) { if (has) { n.lo += 1; n.hi += 1; } }
+  else if (code == 4) { if (n.leaf) return rt_variant(t, 2); if (has) n.r.back() = rt_variant(t.r.back(), 4); }
+  else if (code == 5) { if (n.leaf) return rt_variant(t, 1); if (has) n.r.front() = rt_variant(t.r.front(), 5); }
+  return n;
+}
+template <int D> struct FillIota {
+  static void run(Array<D, float>& a, int& x) { for (int i = a.get_min_index(); i <= a.get_max_index(); ++i) FillIota<D - 1>::run(a[i], x); }
+};
+template <> struct FillIota<1> {
+  static void run(Array<1, float>& a, int& x) { for (int i = a.get_min_index(); i <= a.get_max_index(); ++i) a[i] = (float)(x++); }
+};
+// temporary operand number q: range tree rt, values 10q+1, 10q+2, ... in row-major order
+template <int D> std::unique_ptr<Array<D, float>> make_temp(const RT& rt, int q) {
+  std::unique_ptr<Array<D, float>> w(new Array<D, float>(Build<D>::make(rt)));
+  int x = 10 * q + 1;
+  FillIota<D>::run(*w, x);
+  return w;
+}
+
+// multi-operand arithmetic on slot t with temporaries: `nops' operands, operand `pos' (0 = none) gets variant `code'
+template <int D> NOp make_multi(NSys<D>& y, int t, const std::string& kind, int pos, int code, int a, int b) {
+  NOp o; o.k = kind; o.t = t; o.a = a; o.b = b; o.forked = true;
+  const int nops = kind == "NXapybM" ? 4 : kind == "NXapybSM" ? 2 : kind == "NSapybM" ? 3 : 1;
+  const RT cur = Build<D>::read(y.s[t - 1]->get_index_range());
+  for (int q = 1; q <= nops; ++q) o.S.push_back(q == pos ? rt_variant(cur, code) : cur);
+  return o;
+}
+// the systematic part of every sequence: every operand position of every multi-operand operation once
+// (plus "all compatible"), the kind of incompatibility rotating with the sequence number
+struct Forced { std::string k; int pos, code, a, b; };
+inline std::vector<Forced> sweep_plan(long q) {
+  std::vector<Forced> f;
+  int c = (int)(q % 5);
+  auto code = [&] { c = c % 5 + 1; return c; };
+  for (int pos = 0; pos <= 4; ++pos) f.push_back({ "NXapybM", pos, code(), 0, 0 });
+  for (int pos = 0; pos <= 2; ++pos) f.push_back({ "NXapybSM", pos, code(), 2, -1 });
+  for (int pos = 0; pos <= 3; ++pos) f.push_back({ "NSapybM", pos, code(), 0, 0 });
+  for (int op = 0; op < 2; ++op) f.push_back({ "NVOpM", 1, code(), (int)((q + op) % 4), 0 });
+  for (int op = 0; op < 2; ++op) f.push_back({ "NBOpM", 1, code(), (int)((q + op + 2) % 4), 0 });
+  return f;
 }
 
 // choose the next operation from what the objects currently answer (inputs only, no expectations)
@@ -216,7 +267,18 @@ template <int D> NOp choose(vh::Rng& rng, NSys<D>& y, bool calm) {
   else if (r < 68) { o.k = "NSet"; o.a = rng.range(-9, 9); if (!Obs<D>::walk(T, rng, o.c, false)) { o.k = "NNop"; o.c.clear(); } }
   else if (r < 80) { static const char* ks[] = { "NVAdd", "NVSub", "NVMul", "NVDiv" }; o.k = ks[rng.range(0, 3)]; }
   else if (r < 86) { static const char* ks[] = { "NSAdd", "NSSub", "NSMul", "NSDiv" }; o.k = ks[rng.range(0, 3)]; o.a = rng.range(-2, 3); if (o.k == "NSDiv" && o.a == 0) o.a = 2; }
-  else if (r < 90) { o.k = rng.coin() ? "NSapyb" : "NXapyb"; o.a = rng.range(-2, 2); o.b = rng.range(-2, 2); o.forked = true; }
+  else if (r < 90) {
+    int z = rng.range(0, 7);
+    o.forked = true; o.a = rng.range(-2, 2); o.b = rng.range(-2, 2);
+    if (z == 0) o.k = "NSapyb";
+    else if (z == 1) o.k = "NXapyb";
+    else {
+      const std::string kind = z <= 3 ? "NXapybM" : z == 4 ? "NXapybSM" : z == 5 ? "NSapybM" : z == 6 ? "NVOpM" : "NBOpM";
+      const int nops = kind == "NXapybM" ? 4 : kind == "NXapybSM" ? 2 : kind == "NSapybM" ? 3 : 1;
+      const bool one = nops == 1;
+      return make_multi<D>(y, o.t, kind, rng.range(0, nops), rng.range(1, 5), one ? rng.range(0, 3) : o.a, one ? 0 : o.b);
+    }
+  }
   else if (r < 94) { o.k = "NContig"; o.forked = true; }
   else if (r < 100) { o.k = "NMemSet"; o.t = 1; o.a = rng.range(1, y.K); o.b = rng.range(-9, 9); }
   else if (r == 100) { o.k = "NFill"; o.a = rng.range(0, 3); }
@@ -256,6 +318,12 @@ template <int D> void perform(NSys<D>& y, const NOp& op, NOutcome& out) {
   else if (k == "NSDiv") T /= (float)op.a;
   else if (k == "NSapyb") T.sapyb((float)op.a, O, (float)op.b);
   else if (k == "NXapyb") T.xapyb(O, (float)op.a, O, (float)op.b);
+  else if (k == "NXapybM") { auto x = make_temp<D>(op.S[0], 1), a = make_temp<D>(op.S[1], 2), yy = make_temp<D>(op.S[2], 3), b = make_temp<D>(op.S[3], 4); T.xapyb(*x, *a, *yy, *b); }
+  else if (k == "NXapybSM") { auto x = make_temp<D>(op.S[0], 1), yy = make_temp<D>(op.S[1], 2); T.xapyb(*x, (float)op.a, *yy, (float)op.b); }
+  else if (k == "NSapybM") { auto a = make_temp<D>(op.S[0], 1), yy = make_temp<D>(op.S[1], 2), b = make_temp<D>(op.S[2], 3); T.sapyb(*a, *yy, *b); }
+  else if (k == "NVOpM") { auto w = make_temp<D>(op.S[0], 1); if (op.a == 0) T += *w; else if (op.a == 1) T -= *w; else if (op.a == 2) T *= *w; else T /= *w; }
+  else if (k == "NBOpM") { auto w = make_temp<D>(op.S[0], 1);
+                           std::unique_ptr<A> n(op.a == 0 ? new A(T + *w) : op.a == 1 ? new A(T - *w) : op.a == 2 ? new A(T * *w) : new A(T / *w)); y.s[op.t - 1] = std::move(n); }
   else if (k == "NMemSet") y.blk[op.a - 1] = (float)op.b;
   else if (k == "NContig") out.res.push_back(T.is_contiguous() ? 1 : 0);
   else if (k == "NNop") {}
